@@ -249,6 +249,9 @@ class Subject:
         if ev['fns'] is None:
             del ev['fns']
         ev['gen'] = len(self.proxy.generations)
+        st = [r['k'] for r in self.proxy.reqlog[n0:self.proxy.req_counter] if r.get('state') and r['fn'] != '<delete>']
+        if st:
+            ev['first_state_req'] = st[0]
         if any(r.get('on_dead') for r in self.proxy.reqlog[n0:self.proxy.req_counter]):
             ev['on_dead'] = True
             ev['on_dead_gens'] = sorted({r['gen'] for r in self.proxy.reqlog[n0:self.proxy.req_counter]
